@@ -176,13 +176,7 @@ fn main() {
             if dump_groups {
                 println!("GROUP {count:>8} {sig} :: {}", msg.chars().take(400).collect::<String>());
             }
-            // every case of the group is one violation of that signature
-            for _ in 0..(*count).min(1) {
-                ctx.violation(sig, msg.clone(), w.clone());
-            }
-            if *count > 1 {
-                ctx.cov_add(&format!("cases[{sig}]"), *count);
-            }
+            ctx.violation_n(sig, msg.clone(), w.clone(), *count);
         }
         let card = (graphs.len() as u64, queries.len() as u64);
         ctx.cov("evaluations", tally.evaluations);
